@@ -1,17 +1,45 @@
 #!/usr/bin/env python3
-"""Prints the markdown table of seeded changes (seeded/*/meta.json)."""
-import json, glob, os
+"""Prints the markdown table of seeded changes (seeded/*/meta.json);
+with --update-design the table between the SEEDS_TABLE markers of DESIGN.md is
+replaced."""
+import glob
+import json
+import os
+import re
+import sys
+
 HERE = os.path.dirname(os.path.dirname(os.path.abspath(__file__)))
 rows = []
+n_caught = n_all = 0
 for f in sorted(glob.glob(os.path.join(HERE, "seeded", "*", "meta.json"))):
     m = json.load(open(f))
     name = os.path.basename(os.path.dirname(f))
     c = m.get("confirmed", {})
-    rows.append((name, m.get("property"), (m.get("summary") or "")[:150].replace("|", "/"),
-                 (m.get("needs") or "")[:150].replace("|", "/"),
-                 "yes" if m.get("kept") else "NO",
-                 ("caught: " + (c.get("check_violations") or "")[:90].replace("|", "/")) if m.get("caught_by_quick_check") else "not caught by quick tier"))
-print("| seed | property | change | needs | confirmed (demo fails with / passes without, suite passes) | quick check |")
-print("|---|---|---|---|---|---|")
-for r in rows:
-    print("| " + " | ".join(str(x) for x in r) + " |")
+    if not m.get("kept"):
+        continue
+    n_all += 1
+    chk = m.get("checked_with") or m.get("property")
+    if m.get("caught_by_quick_check"):
+        n_caught += 1
+        subs = re.findall(r"sub-check: ([^;]+);", c.get("check_violations") or "")
+        verdict = f"caught by `./check {chk}`: " + ", ".join(
+            f"`{s.strip()}`" for s in subs[:3])
+    else:
+        verdict = f"**not caught** by `./check {chk}` (quick)"
+    txt = lambda s: (s or "").replace("|", "/").replace("\n", " ")
+    rows.append(f"| {name} | {', '.join(m.get('files', []))} | "
+                f"{txt(m.get('summary'))[:260]} | {txt(m.get('needs'))[:200]} | "
+                f"{verdict} |")
+table = ["| seed | file(s) | change | needs | quick check on the changed tree |",
+         "|---|---|---|---|---|"] + rows + [
+    "", f"{n_caught} of {n_all} confirmed seeded changes are caught by the quick "
+    "tier of the named check."]
+text = "\n".join(table)
+if "--update-design" in sys.argv:
+    p = os.path.join(HERE, "DESIGN.md")
+    s = open(p).read()
+    a, b = "<!-- SEEDS_TABLE_BEGIN -->", "<!-- SEEDS_TABLE_END -->"
+    i, j = s.index(a) + len(a), s.index(b)
+    open(p, "w").write(s[:i] + "\n" + text + "\n" + s[j:])
+else:
+    print(text)
